@@ -1,7 +1,8 @@
 #!/usr/bin/env python3
 """import_mutants.py <prop> : copy confirmed mutants from /tmp/mut/<prop>/_out/m*/ into /verif/seeded/<prop>-m<k>/ with meta.json."""
 import json, os, shutil, sys, re
-prop = sys.argv[1]
+prop = sys.argv[1]                      # directory name under /tmp/mut (and prefix of the seeded ids)
+real_prop = sys.argv[2] if len(sys.argv) > 2 else prop   # property the change breaks, when the directory is not named after it
 src = "/tmp/mut/%s/_out" % prop
 for k in sorted(os.listdir(src)):
     d = os.path.join(src, k)
@@ -20,7 +21,7 @@ for k in sorted(os.listdir(src)):
     notes = open(os.path.join(d, "notes.md")).read() if os.path.exists(os.path.join(d, "notes.md")) else ""
     files = re.findall(r"^\+\+\+ b/(\S+)", open(os.path.join(d, "patch.diff")).read(), re.M)
     meta = {
-        "property": prop,
+        "property": real_prop,
         "files_changed": files,
         "needs_to_manifest": "see notes.md",
         "origin": "independent sub-agent given only the property text and a scratch worktree",
@@ -29,7 +30,7 @@ for k in sorted(os.listdir(src)):
             "demo_on_clean_tree": "pass", "demo_with_patch": "fail (rc %s)" % c["demo_mutant_rc"], "suite_with_patch": c["suite_summary"].strip(),
             "demo_crate": c.get("crate"),
         },
-        "run_checks": [prop],
+        "run_checks": [real_prop],
     }
     json.dump(meta, open(os.path.join(dst, "meta.json"), "w"), indent=1)
     print("imported", dst)
